@@ -778,11 +778,13 @@ def line_motion_cases(rng, count):
         body = [rand_text(rng, 0 if i % 3 == 0 else 1, 5, ["a", "b", " ", "é"]) for _ in range(rng.randint(2, 4))]
         lines = body + [""] if i % 2 == 0 else [""] + body + ([""] if i % 4 == 1 else [])
         t = "\n".join(lines)
-        line = i // 2 % len(lines)
+        up = i % 2 == 1
+        # at least two lines away from the edge line the counted move ends on
+        line = (len(lines) - 1 - i // 2 % (len(lines) - 2)) if up else i // 2 % (len(lines) - 2)
         start = sum(len(x) + 1 for x in lines[:line])
         k = start + rng.randint(0, len(lines[line]))
-        cnt = rng.choice([len(lines) - 1 - line, len(lines) - 1, 2, 3, 9]) or 2
-        up = i % 2 == 1
+        exact = line if up else len(lines) - 1 - line
+        cnt = [exact, exact, exact + 3, 9][i // 4 % 4]
         mode = "emacs" if i % 3 else "vi"
         if mode == "emacs":
             keys = ["M-%d" % cnt, "Up" if up else "Down", "X", "M-%d" % rng.choice([2, 3, 4]), "Down" if up else "Up", "Y", "Enter"]
